@@ -78,6 +78,20 @@ Theorem C08_subset_order :
 Proof. exact subset_order. Qed.
 Print Assumptions C08_subset_order.
 
+(* ... and every variant record and every genotype cell of the result is the one
+   its variant ID and sample name denote in the original object *)
+Theorem C08_subset_cells :
+  forall g S' V' g',
+  subset g (Some S') (Some V') = Ok g' -> length (g_rows g) = length (g_variants g) ->
+  forall i j, (i < length (g_variants g'))%nat -> (j < length (g_samples g'))%nat ->
+  exists pi pj,
+    index_of (v_id (nth i (g_variants g') dummy_variant)) (map v_id (g_variants g)) = Some pi
+    /\ index_of (nth j (g_samples g') 0) (g_samples g) = Some pj
+    /\ nth i (g_variants g') dummy_variant = nth pi (g_variants g) dummy_variant
+    /\ nth j (nth i (g_rows g') []) dummy_call = nth pj (nth pi (g_rows g) []) dummy_call.
+Proof. exact subset_cells. Qed.
+Print Assumptions C08_subset_cells.
+
 Theorem C08_subset_total :
   forall g S V, nodupb (g_samples g) = true -> nodupb (map v_id (g_variants g)) = true ->
   exists g', subset g S V = Ok g'.
